@@ -275,6 +275,34 @@ func checkC07(c *Ctx) {
 		w.Seen(uint64(i))
 	})
 	replayers["C07/counts"] = replayers["C07/arbitrary"]
+	// envelope content of n runes, n around every power of two and every power of ten up to 2^17 (a repetition bound,
+	// a fixed scratch size or a counter width in the envelope scanner cuts at such a length), in one-, two- and
+	// three-byte runes, alone and followed by a second envelope
+	var clens []int
+	for _, c0 := range []int{255, 256, 512, 1000, 1024, 2048, 4096, 8192, 10000, 16384, 32768, 65536, 100000, 131072} {
+		if c.Quick() && c0 > 70000 {
+			continue
+		}
+		for dl := -2; dl <= 2; dl++ {
+			clens = append(clens, c0+dl)
+		}
+	}
+	cunits := []string{"c", "\u00e9", "\u2038", "x\n"}
+	c.Section("C07/content-lengths", map[string]interface{}{"content_runes": clens, "units": cunits, "shapes": []string{"one envelope", "two envelopes", "an envelope after n runes of safe text"}}, len(clens)*len(cunits), func(i int, w *Worker) {
+		n, u := clens[i/len(cunits)], cunits[i%len(cunits)]
+		body := strings.Repeat(u, n)
+		for _, x := range []string{"p" + mStart + body + mEnd + "s", mStart + body + mEnd + "m" + mStart + body[:len(u)*3] + mEnd, body + mStart + "x" + mEnd} {
+			w.Eval()
+			if cl, d := c07Eval([]byte(x), w.Retained()); cl != "" {
+				if len(d) > 600 {
+					d = d[:300] + " … " + d[len(d)-300:]
+				}
+				w.Fail(cl, map[string]interface{}{"unit": u, "n": n, "s": []byte(x)}, fmt.Sprintf("%d repetitions of %q: %s", n, u, d))
+			}
+		}
+		w.Seen(uint64(i))
+	})
+	replayers["C07/content-lengths"] = replayers["C07/arbitrary"]
 	// long inputs: one envelope (and, separately, one split-marker pattern) swept across every power-of-two boundary
 	// from 2^10 to 2^17 (chunked or windowed processing of large inputs cuts somewhere)
 	bounds := []int{1 << 10, 1 << 12, 1 << 13, 1 << 14, 1 << 15, 1 << 16, 1 << 17}
